@@ -38,8 +38,10 @@ def job_size(job):
 # ------------------------------------------------------------------------------------------------
 def prework_of(seed, stream, hs, shard):
     r = core.rng(seed, "C12", stream + ":prework", hs * 1000 + shard)
-    return dict(alloc=r.choice([0, 3, 40, 400, 3000]), strs=r.choice([0, 5, 60, 500]), elab=r.choice([0, 1, 3, 8]),
-                salt=r.randrange(10 ** 6))
+    pw = dict(alloc=r.choice([0, 3, 40, 400, 3000]), strs=r.choice([0, 5, 60, 500]), elab=r.choice([0, 1, 3, 8]),
+              salt=r.randrange(10 ** 6))
+    pw["mods"] = r.choice([0, 1, 2, 5, 11, 40, 200])      # module objects (drawn last: the earlier draws are those of round 1)
+    return pw
 
 
 def plan_sessions(njobs, hashseeds, seed, stream, shard_size):
@@ -325,7 +327,7 @@ def evaluate(run, stream, jobs, hashseeds, seed, shard_size, nontrivial=lambda j
                 if all(s is not None for s in seen):
                     tie_cases.append(("ocase", c_ocase(oc, seen)))
                     tie_ref.append((j, oc["inst"]))
-        elif job["kind"] == "cyc":
+        elif job["kind"] == "cyc" and not job.get("long"):      # long-name designs: tied by c12z.chk_long (explicit signals, refusals)
             seen = [top_sigs(r, "G") for r in rs]
             if all(s is not None for s in seen):
                 tie_cases.append(("ncase", c_ncase(cyc_groups(job["cyc"]), seen)))
@@ -379,6 +381,8 @@ def first_difference(o):
 
 
 def explain(ra, rb):
+    if ra.get("steps") != rb.get("steps"):
+        return f"outcomes of the PDK registry operations: {ra.get('steps')} vs {rb.get('steps')}"
     if ra.get("mods") != rb.get("mods"):
         return f"module names/order: {ra.get('mods')} vs {rb.get('mods')}"
     for xa, xb in zip(ra.get("order", []), rb.get("order", [])):
@@ -410,6 +414,8 @@ def report_difference(run, stream, job, o, plans, jobs, nfail):
         replay = dict(kind="impl-violates-spec", stream=stream, case=job, note="differs only inside its sessions",
                       runs=[dict(hashseed=plans[p][0], prework=plans[p][1], session_jobs=[jobs[i] for i in plans[p][2]])
                             for p in (pa, pb)])
+    if job.get("kind") == "pdkreg":
+        replay["repeat"] = 6            # address-dependent: see run(replay=...)
     replay.update(differs_in=diff, explanation=explain(ra, rb), failing_designs=nfail,
                   observed=[{f: ra[f] for f in FORMATS}, {f: rb[f] for f in FORMATS}],
                   reproducer=f"./check C12 --replay <this file>  (rebuilds the design in two fresh interpreters with "
@@ -426,7 +432,9 @@ def run(run, tier, seed, replay=None):
         job = replay["case"]
         runs = replay.get("runs") or [dict(hashseed=h, prework={}) for h in hashseeds]
         rs = []
-        for rr in runs:
+        # a difference that comes from object ADDRESSES (the PDK registry is a set of module objects) is not a function of the hash
+        # seed and the prework alone (address-space randomisation): such replays repeat every recorded run several times
+        for rr in runs * int(replay.get("repeat", 1)):
             js = rr.get("session_jobs") or [job]
             out = core.run_worker("c12", dict(prework=rr.get("prework", {}), jobs=js), hashseed=str(rr["hashseed"]))["results"]
             rs.append(out[js.index(job)])
@@ -434,7 +442,8 @@ def run(run, tier, seed, replay=None):
         print("replay verdict:", bad or "ok", json.dumps([{f: r[f][:16] for f in FORMATS} for r in rs]))
         run.stream("replay", len(rs), 1, rule="the replayed design")
         if bad:
-            run.violation("C12:replay", "replayed design still differs between the processes: " + explain(rs[0], rs[1]),
+            other = next((r for r in rs[1:] if any(r[f] != rs[0][f] for f in FORMATS)), rs[1])
+            run.violation("C12:replay", "replayed design still differs between the processes: " + explain(rs[0], other),
                           dict(kind="replay", case=job, runs=runs))
         return
 
@@ -506,3 +515,7 @@ def run(run, tier, seed, replay=None):
     #      site where the elaborator iterates over a hash-ordered set (harness/vp/c12e.py, notes/C12E.md)
     from . import c12e
     c12e.run_tie(run, tier, seed, hashseeds)
+
+    # ---- strengthening round (harness/vp/c12z.py): generator-parameter kinds, names at the flatname limit, PDK registry programs
+    from . import c12z
+    c12z.run_streams(run, tier, seed, hashseeds)
